@@ -9,6 +9,8 @@
 #include <etl/_chrono/weekday.hpp>
 #include <etl/_chrono/weekday_indexed.hpp>
 #include <etl/_chrono/year.hpp>
+#include <etl/_chrono/year_month.hpp>
+#include <etl/_chrono/year_month_day.hpp>
 
 namespace etl::chrono {
 
@@ -94,6 +96,54 @@ private:
 [[nodiscard]] constexpr auto operator-(year_month_weekday const& lhs, years const& rhs) noexcept -> year_month_weekday
 {
     return lhs + -rhs;
+}
+
+constexpr year_month_weekday::year_month_weekday(sys_days const& dp) noexcept
+    : _y{year_month_day{dp}.year()}
+    , _m{year_month_day{dp}.month()}
+    , _wdi{chrono::weekday{dp}, (static_cast<unsigned>(year_month_day{dp}.day()) - 1U) / 7U + 1U}
+{
+}
+
+constexpr year_month_weekday::year_month_weekday(local_days const& dp) noexcept
+    : year_month_weekday{sys_days{dp.time_since_epoch()}}
+{
+}
+
+constexpr year_month_weekday::operator sys_days() const noexcept
+{
+    auto const first = static_cast<sys_days>(year_month_day{_y, _m, chrono::day{1}});
+    auto const delta = (weekday() - chrono::weekday{first}).count() + (static_cast<int>(index()) - 1) * 7;
+    return sys_days{days{first.time_since_epoch().count() + delta}};
+}
+
+constexpr year_month_weekday::operator local_days() const noexcept
+{
+    return local_days{static_cast<sys_days>(*this).time_since_epoch()};
+}
+
+constexpr auto year_month_weekday::operator+=(months const& m) noexcept -> year_month_weekday&
+{
+    *this = *this + m;
+    return *this;
+}
+
+constexpr auto year_month_weekday::operator-=(months const& m) noexcept -> year_month_weekday&
+{
+    *this = *this - m;
+    return *this;
+}
+
+constexpr auto year_month_weekday::operator+=(years const& y) noexcept -> year_month_weekday&
+{
+    *this = *this + y;
+    return *this;
+}
+
+constexpr auto year_month_weekday::operator-=(years const& y) noexcept -> year_month_weekday&
+{
+    *this = *this - y;
+    return *this;
 }
 
 } // namespace etl::chrono
